@@ -152,12 +152,15 @@ def body_edges(case, ctx):
         F = EdgeIDObj.from_qubit_ids(f[0], f[1])
         r_eq, r_hash = (E == Er) and (Er == E), hash(E) == hash(Er)
         ef, fe = E == F, F == E
+        ne_pairs = [((E != Er), not (E == Er)), ((Er != E), not (Er == E)), ((E != F), not ef), ((F != E), not fe), ((E != E), False)]
         hef = hash(E) == hash(F)
         in_set = F in {E}
         in_list = F in [E]
         probe = NAMES + [n for n in f if n not in NAMES]
         contains = [E.contains(QubitIDObj(n)) for n in probe]
         foreign = (E == (e[0], e[1])) or (E == QubitIDObj(e[0])) or (E == f"{e[0]}-{e[1]}")
+    if any(bool(x) is not bool(y) for x, y in ne_pairs):
+        ctx.fail("edge-ne", f"Edge{e} / Edge{f}: != disagrees with 'not ==' ((!=, not ==) for reversal, reversed reversal, E F, F E, self: {ne_pairs})")
     if not r_eq:
         ctx.fail("edge-order-eq", f"Edge{e} != its reversal")
     if not r_hash:
@@ -195,6 +198,8 @@ def body_qubits(case, ctx):
     with ctx.lib("QubitIDObj"):
         A, B = QubitIDObj(a), QubitIDObj(b)
         eq, qe = A == B, B == A
+        ne, en, self_ne = A != B, B != A, A != QubitIDObj(a)
+        foreign_ne = (A != a) and (A != FeedlineIDObj(a)) and (A != None)  # noqa: E711
         h = hash(A) == hash(B)
         foreign = (A == a) or (A == FeedlineIDObj(a)) or (A == None)  # noqa: E711
         members = (B in {A}, B in [A], {A: 1}.get(B))
@@ -202,6 +207,10 @@ def body_qubits(case, ctx):
     exp = a == b
     if eq is not exp or qe is not exp:
         ctx.fail("qubit-eq", f"QubitID({a!r}) == QubitID({b!r}) gave {eq}/{qe}")
+    if bool(ne) is exp or bool(en) is exp or bool(self_ne):
+        ctx.fail("qubit-ne", f"QubitID({a!r}) != QubitID({b!r}) gave {ne}/{en} (same name: {exp}); != with an equal-named copy of itself: {self_ne}")
+    if not foreign_ne:
+        ctx.fail("qubit-foreign", f"QubitID({a!r}) != a foreign object gave False")
     if exp and not h:
         ctx.fail("qubit-hash", f"equal qubit ids {a!r} hash differently")
     if foreign:
